@@ -219,15 +219,39 @@ def case_cnf_to_bdd(bindir, work, seed, i):
     nv = max(v for c in clauses for v, _ in c) + 1
     d = os.path.join(work, "c2b%d" % i)
     os.makedirs(d, exist_ok=True)
-    text = "p cnf %d %d\n" % (nv, len(clauses)) + "".join(" ".join(("%d" if p else "-%d") % (v + 1) for v, p in c) + " 0\n" for c in clauses)
-    open(os.path.join(d, "f.cnf"), "w").write(text)
     order = rng.choice(["auto_minfill", "auto_force"])
+    # sometimes an empty clause (a lone 0); FORCE on an empty clause is outside the domain (S9)
+    if order == "auto_minfill" and rng.random() < 0.08:
+        clauses.insert(rng.randrange(len(clauses) + 1), [])
+    # layouts: one clause per line, several clauses per line, clauses wrapped over lines
+    # (also with the terminating 0 alone on a line), comment lines
+    layout = rng.choice(["plain", "plain", "packed", "wrapped"])
+    toks = []
+    for c in clauses:
+        toks.append([("%d" if p else "-%d") % (v + 1) for v, p in c] + ["0"])
+    body = ""
+    if layout == "plain":
+        body = "".join(" ".join(t) + "\n" for t in toks)
+    elif layout == "packed":
+        flat = [x for t in toks for x in t]
+        while flat:
+            k = rng.randint(1, 9)
+            body += " ".join(flat[:k]) + "\n"
+            flat = flat[k:]
+    else:
+        for t in toks:
+            cut = rng.randint(1, len(t)) if len(t) > 1 else 1
+            body += " ".join(t[:cut]) + "\n"
+            if t[cut:]:
+                body += " ".join(t[cut:]) + "\n"
+    text = ("c generated\n" if rng.random() < 0.3 else "") + "p cnf %d %d\n" % (nv, len(clauses)) + body
+    open(os.path.join(d, "f.cnf"), "w").write(text)
     cmd = [os.path.join(bindir, "bottomup_cnf_to_bdd"), "-f", os.path.join(d, "f.cnf"), "--order", order]
     exp = 0
     for a in range(1 << nv):
         if all(any(bool((a >> v) & 1) == p for v, p in c) for c in clauses):
             exp |= 1 << a
-    info = {"kind": "cnf_to_bdd", "case": i, "dimacs": text, "order": order}
+    info = {"kind": "cnf_to_bdd", "case": i, "dimacs": text, "order": order, "layout": layout}
     nontrivial = exp not in (0, (1 << (1 << nv)) - 1)
     rc, out, err = run_cmd(cmd)
     if rc != 0:
